@@ -318,9 +318,10 @@ MANIFEST_ENTRY = {
             "the real classes and on the model by vm_compute, outputs canonicalised to the parameter/grid version they were computed from "
             "(constant vector fields), error kinds and buffer shapes compared exactly inside Coq, failing histories shrunk.",
     "note": "Found by the search, not modelled (constant fields are insensitive to it): StationaryVelocityFieldTransform.grid_ writes "
-            "exp.align_corners on the ExpFlow module shared with shallow copies. Partial: composite calls (SequentialTransform) are covered by correspondence and implementation-side search only (no theorem: "
-            "member updates allocate tensors, the proof needs a reference-validity invariant not yet proved); regrid theorem assumes the "
-            "explicit well-formedness `slots_wf` (params stored in at most one of __dict__/_buffers) and covers dense models; B-spline "
+            "exp.align_corners on the ExpFlow module shared with shallow copies. Partial: composite calls are proved for members that are plain parametric transforms (C09_composite_call_is_fresh_after_any_history, "
+            "using the reachability invariant C09_reachable_states_wellformed proved by induction over histories); composites with linked "
+            "members are covered by correspondence and search only; the regrid theorem covers dense models (its slots_wf hypothesis is "
+            "discharged over histories by C09_regrid_preserves_world_after_any_history); B-spline "
             "subdivision and smooth-field regridding are checked numerically by the search (world displacement preserved within 5%); "
             "GenericSpatialTransform only through its SequentialTransform behaviour. Trusted: Coq kernel, vm_compute, the modelled Python/"
             "torch object semantics (validated by the correspondence), harness canonicalisation on constant fields.",
